@@ -94,7 +94,10 @@ type Case struct {
 	Files []File `json:"files,omitempty"`
 	Long  *Long  `json:"long,omitempty"`
 	FillK string `json:"fill_k,omitempty"` // Fill data value of k; "" = not in Fill
-	Via   string `json:"via,omitempty"`    // "" = Load(p).Fill(d).Render ; "renderfile" = Fill(d).RenderFile(p)
+	// FillKind: what is handed to Fill: "" = map[string]any, "struct" = a struct value with json
+	// tags k / fd, "ptr" = a pointer to it (a layout name supplied through Fill always travels in a map).
+	FillKind string `json:"fill_kind,omitempty"`
+	Via      string `json:"via,omitempty"` // "" = Load(p).Fill(d).Render ; "renderfile" = Fill(d).RenderFile(p)
 
 	// LayoutVia: where the page's layout name (Page.Layout) comes from: "" = the page's
 	// front-matter (the statement's case); "fill" = key `layout` of the Fill data; "assign" =
@@ -447,37 +450,39 @@ func walk(c Case) plan {
 
 // allowedK returns the admissible values of k inside chain[i] (nil = unasserted).
 //
-//   - the file's own front-matter defines k: that value (C08: the rendered file's own
-//     front-matter comes first; docs/components.md: "front-matter values are authoritative");
+//   - the file's own front-matter defines k: that value (docs/data-loading.md "precedence order":
+//     front-matter in the .vuego file first; docs/components.md: "front-matter values are
+//     authoritative");
 //   - otherwise the page's k must still be visible (statement: "the page's data and front-matter
-//     still visible"): the page's front-matter value or the Fill value. A k from the front-matter
-//     of an intermediate layout is neither: if an outer layout showed it, the page's value would
-//     no longer be visible there. Where page front-matter and Fill both define k, which of the
-//     two a *layout* shows is not fixed by the statement; inside the page its own front-matter wins;
+//     still visible"). What the page's k is, is fixed by the same documented order: the page's
+//     front-matter over Fill()/Assign() data. So a layout shows the page's front-matter k if the
+//     page defines it, else the Fill k - whatever kind of value was handed to Fill. A k from the
+//     front-matter of an intermediate layout is neither;
 //   - k defined neither by the page nor by Fill: what an undefined variable renders as is not
 //     documented, and nothing of the page is hidden if an earlier layout's k shows: unasserted.
 func allowedK(c Case, chain []File, i int, pageReused bool) []string {
-	f := chain[i]
-	if f.K != "" {
-		return []string{f.K}
+	switch {
+	case chain[i].K != "":
+		return []string{chain[i].K}
+	case c.Page.K != "":
+		return []string{c.Page.K}
+	case c.FillK != "":
+		return []string{c.FillK}
 	}
-	if i == 0 {
-		if c.FillK != "" {
-			return []string{c.FillK}
-		}
-		return nil
-	}
-	var a []string
-	if c.Page.K != "" {
-		a = append(a, c.Page.K)
-	}
-	if c.FillK != "" {
-		a = append(a, c.FillK)
-	}
-	return a
+	return nil
 }
 
 // ---------------------------------------------------------------- execution
+
+// fillK / fillNoK are the struct forms of the Fill data (fields addressed by their json tags).
+type fillK struct {
+	K  string `json:"k"`
+	Fd string `json:"fd"`
+}
+
+type fillNoK struct {
+	Fd string `json:"fd"`
+}
 
 type sink struct {
 	fw.Capture
@@ -511,6 +516,19 @@ func execute(c Case) (res result) {
 		}
 		return t
 	}
+	var fill any = data
+	if c.FillKind != "" && !(c.LayoutVia == "fill" && c.Page.Layout != "") {
+		switch {
+		case c.FillK != "" && c.FillKind == "ptr":
+			fill = &fillK{K: c.FillK, Fd: fdVal}
+		case c.FillK != "":
+			fill = fillK{K: c.FillK, Fd: fdVal}
+		case c.FillKind == "ptr":
+			fill = &fillNoK{Fd: fdVal}
+		default:
+			fill = fillNoK{Fd: fdVal}
+		}
+	}
 	w := &sink{b: fw.Budget{Limit: writeBudget}}
 	func() {
 		defer func() {
@@ -525,9 +543,9 @@ func execute(c Case) (res result) {
 		// no goroutine, no clock: non-termination shows up as an exhausted budget
 		switch c.Via {
 		case "renderfile":
-			res.err = assign(vuego.NewFS(m).Fill(data)).RenderFile(context.Background(), w, c.Page.Path)
+			res.err = assign(vuego.NewFS(m).Fill(fill)).RenderFile(context.Background(), w, c.Page.Path)
 		default:
-			res.err = assign(vuego.NewFS(m).Load(c.Page.Path).Fill(data)).Render(context.Background(), w)
+			res.err = assign(vuego.NewFS(m).Load(c.Page.Path).Fill(fill)).Render(context.Background(), w)
 		}
 	}()
 	res.out = w.Got
@@ -909,6 +927,22 @@ func classify(c Case) (bool, []string) {
 	}
 	if pl.nonStr {
 		cls = append(cls, "link:name-is-non-string-yaml-scalar")
+	}
+	switch c.FillKind {
+	case "struct":
+		cls = append(cls, "fill=struct")
+	case "ptr":
+		cls = append(cls, "fill=pointer-to-struct")
+	default:
+		cls = append(cls, "fill=map")
+	}
+	if pl.out == oOK && len(pl.chain) > 1 && c.Page.K != "" && c.FillK != "" {
+		for i := 1; i < len(pl.chain); i++ {
+			if pl.chain[i].K == "" {
+				cls = append(cls, "k:layout-must-see-page-front-matter-over-fill("+map[string]string{"": "map", "struct": "struct", "ptr": "ptr"}[c.FillKind]+")")
+				break
+			}
+		}
 	}
 	{
 		crlf, blanks, nobody := false, false, false
@@ -1296,6 +1330,7 @@ func genCase(t *rapid.T) Case {
 	if c.Long != nil && rapid.Bool().Draw(t, "long.crlf") {
 		c.Long.EOL = "crlf"
 	}
+	c.FillKind = rapid.SampledFrom([]string{"", "", "struct", "ptr"}).Draw(t, "fill.kind")
 	if c.Page.Layout != "" {
 		c.LayoutVia = rapid.SampledFrom([]string{"", "", "", "", "fill", "assign"}).Draw(t, "layout.via")
 	}
@@ -1425,6 +1460,40 @@ func spellings(s *stage) {
 	}
 }
 
+// fillKinds: chains of 1 and 2 layouts (also through the default rule) x every subset of k
+// sources {page front-matter, Fill, each layout} x Fill data as map / struct / pointer to struct
+// x both entry points: the documented precedence (front-matter over Fill) decides what the
+// page's k is, and the layouts must see exactly that.
+func fillKinds(s *stage) {
+	for shape := 0; shape < 3; shape++ {
+		for m := 0; m < 16; m++ {
+			for _, kind := range []string{"", "struct", "ptr"} {
+				for _, via := range []string{"", "renderfile"} {
+					c := Case{Page: File{Path: "pages/p.vuego", Layout: "a"}, Via: via, FillKind: kind}
+					switch shape {
+					case 0:
+						c.Files = []File{{Path: "layouts/a.vuego"}, {Path: "layouts/404.vuego"}}
+					case 1:
+						c.Files = []File{{Path: "layouts/a.vuego", Layout: "404"}, {Path: "layouts/404.vuego"}}
+					case 2:
+						c.Page.Layout = ""
+						c.Files = []File{{Path: basePath, Layout: "404"}, {Path: "layouts/404.vuego"}}
+					}
+					applyKMask(&c, m)
+					if !s.yield(c) {
+						return
+					}
+				}
+			}
+		}
+	}
+}
+
+// rotateFill varies the kind of value handed to Fill with the index.
+func rotateFill(c *Case, i int) {
+	c.FillKind = []string{"", "struct", "", "ptr", "struct"}[i%5]
+}
+
 var emptySpellings = []string{"", "bare", "quoted", "tilde"}
 
 // rotateEmpty writes "no layout" of the page and of the layout files in one of its spellings
@@ -1552,6 +1621,7 @@ func overlaySplits(s *stage) {
 			applyKMask(&d, (i*7+i/3)%(4<<len(d.Files)))
 			rotateEmpty(&d, i/2)
 			rotateSpell(&d, i)
+			rotateFill(&d, i)
 			if !s.yield(d) {
 				return false
 			}
@@ -1649,6 +1719,7 @@ func shapes(s *stage) {
 					}
 					rotateEmpty(&c, i/3)
 					rotateSpell(&c, i)
+					rotateFill(&c, i/2)
 					if !viaDefault && L > 0 {
 						switch i % 6 {
 						case 1:
@@ -1694,6 +1765,7 @@ func allGraphs(s *stage, slots []string) {
 		rotateFS(&c, i)
 		rotateEmpty(&c, i/5)
 		rotateSpell(&c, i)
+		rotateFill(&c, i/3)
 		return s.yield(c)
 	})
 }
@@ -1713,6 +1785,7 @@ func allGraphsK(s *stage) {
 				d.Files = append([]File(nil), c.Files...)
 				applyKMask(&d, m)
 				d.Via = via
+				rotateFill(&d, s.n/2) // both entry points see the same kind
 				if !s.yield(d) {
 					return false
 				}
@@ -1744,6 +1817,7 @@ func TestProp(t *testing.T) {
 		{"long", "synthetic chains of 6..150 layouts", longChains},
 		{"zone", "default-applied vs explicitly named base over chains of 93..106 templates", limitZone},
 		{"overlay", "all layout graphs over 3 files x 3 page options x every upper/lower split of the layout files", overlaySplits},
+		{"fill", "chains of 1-2 layouts x every subset of k sources x Fill as map/struct/pointer x 2 entry points", fillKinds},
 		{"spell", "one file of a 3-file chain in every line-ending x fence-blanks x body/front-matter-only spelling", spellings},
 		{"empty", "page layout key absent/empty in three spellings x base absent/present/continuing", emptyKeys},
 		{"shape", "chain shapes: lengths 0..5 x placements x endings x default/named", shapes},
